@@ -138,6 +138,9 @@ def run(ctx, chk):
         chk.extra["deep_paths"] = sum(len(deep.get(f.name)) for f in prog.lib_funcs())
 
     check_blocks(chk, "C06.blocks", prog, cache, floor=26)
+    chk.rule("C06.stack-records", "every record unlinked from a decoding stack on a path of the function that owns the stack is handed to the "
+                                  "installed free before that function returns (stack module inlined)")
+    check_stack_records(chk, "C06.stack-records", prog, eff)
     chk.rule("C06.no-stale-block", "a refused (re)allocation leaves no field pointing at a freed block: after freeing a block read from a "
                                    "heap field the field is overwritten or its owner freed on the same path (reallocation wrappers inlined)")
     check_dangling(chk, "C06.no-stale-block", prog, eff, cache)
@@ -296,6 +299,55 @@ def check_dangling(chk, rule, prog, eff, cache, floor=4):
                                             "path: the stale pointer will be freed or resized again" % DR.fmt_term(("p", X, off) if off else X),
                        path=pa.block_lines() if not ok else None)
     chk.floor(rule, "frees of blocks read from heap fields", n, floor)
+
+
+def check_stack_records(chk, rule, prog, eff, floor=4):
+    """Frames of the decoding stack: a record that a function unlinks from a decoding stack (the top pointer moves past it)
+    is handed to the installed free on the same path - it is not parked anywhere that outlives the unlinking without being
+    released before the function returns.  Decided on the paths of every function that owns a `struct _cbor_stack` local
+    (cbor_load), with the functions of the stack module inlined so that what pop / release / init really do is visible."""
+    stack_unit = prog.fn("_cbor_stack_pop").unit
+    mod = {f.name for f in prog.lib_funcs() if f.unit == stack_unit}
+    top_off = prog.field_offset("_cbor_stack", "top")
+    lower_off = prog.field_offset("_cbor_stack_record", "lower")
+    n = 0
+    for f in prog.lib_funcs():
+        if f.name in mod:
+            continue
+        if not any(i.op == "alloca" and "struct._cbor_stack" in i.d.get("alloc_type", "") and "record" not in i.d.get("alloc_type", "")
+                   for i in f.all_insts()):
+            continue
+        where = "%s:%d" % (f.file, f.line)
+        for k, pa in enumerate(P.Executor(prog, eff, inline=mod, loop_bound=2).run(f.name)):
+            cur = {}        # stack base -> current top term
+            unlinked = []
+            for e in pa.events:
+                if e.kind == "load":
+                    b, o = ptr_key(e.args[0])
+                    if o == top_off and isinstance(b, tuple) and b[0] == "alloca":
+                        cur[b] = e.res
+                elif e.kind == "store":
+                    b, o = ptr_key(e.args[0])
+                    if o == top_off and isinstance(b, tuple) and b[0] == "alloca":
+                        old = cur.get(b)
+                        new = e.args[1]
+                        if isinstance(old, tuple) and old[0] in ("ld", "call") and new != old:
+                            relinked = any(x.kind == "store" and x.args[1] == old and ptr_key(x.args[0]) == (ptr_key(new)[0] if isinstance(new, tuple) else None, lower_off)
+                                           for x in pa.events)
+                            if not relinked:
+                                unlinked.append((old, e))
+                        cur[b] = new
+            if not unlinked:
+                continue
+            freed = {x.args[0] for x in pa.events if x.kind == "call" and x.ckind == "alloc" and x.callee == "_cbor_free"}
+            for rec, e in unlinked:
+                n += 1
+                ok = rec in freed
+                chk.ob(rule, "%s path %d: a record unlinked from the decoding stack is released" % (f.name, k), ok, e.ins.loc(), fn=f.name,
+                       key="%s:rec:%s:%d" % (f.name, e.fn.name, e.ins.id),
+                       detail="" if ok else "the record popped at %s is not handed to the installed free before %s returns (it is kept somewhere "
+                                            "the function's exit never releases)" % (e.ins.loc(), f.name), path=pa.block_lines() if not ok else None)
+    chk.floor(rule, "records unlinked on paths", n, floor)
 
 
 def check_blocks(chk, rule, prog, cache, floor=None):
